@@ -133,7 +133,7 @@ static void check_all_live(const char *after) {
 static int ranges_overlap(const void *a, size_t an, const void *b, size_t bn) { const char *x = a, *y = b; return an && bn && x < y + bn && y < x + an; }
 
 /* ---------------- transitions ---------------- */
-enum { OP_INIT, OP_WIN, OP_FREE, OP_FREEBLOCK };
+enum { OP_INIT, OP_WIN, OP_FREE, OP_FREEBLOCK, OP_FREESTART, OP_CLEANUP };
 static void do_init(int cls) {
   cls_t k = CLS[cls]; char nm[48]; snprintf(nm, sizeof nm, "INIT(%dx%d)", k.r, k.c);
   int rowstride = ((k.c + 63) / 64); if (rowstride & 1) rowstride++;
@@ -215,6 +215,27 @@ static void do_freeblock(int b) {
   check_model(nm); check_all_live(nm);
 }
 
+/* free ONE start header (the first live one in list order) of header block b: makes a hole in an interior block */
+static void do_freestart(int b) {
+  char nm[48]; snprintf(nm, sizeof nm, "FREESTART(%d)", b);
+  for (int i = 0; i < nstart; i++) if (start_alive[i]) { int e, bi = header_block_index(START[i], &e); if ((b == 99 && bi < 0) || bi == b) { void *ef = NULL; int ea = 0; long nf0 = aw_nfreed; start_alive[i] = 0; model_free(0, NULL, &ef, &ea); mzd_free(START[i]);
+      if (ea && ef) { int saw = 0; for (long x = nf0; x < aw_nfreed; x++) if (aw_freed[x & 63] == ef) saw = 1; if (!saw) fail("model-conformance", "%s: the model predicts the eviction free(%p) but it did not happen", nm, ef); }
+      for (long x = nf0; x < aw_nfreed; x++) if (is_live_data(aw_freed[x & 63])) fail("live-storage-freed", "%s: free() was called on the data block of a live matrix", nm);
+      break; } }
+  check_model(nm); check_all_live(nm);
+}
+/* m4ri_mmc_cleanup() in the middle of a history (public: "free all blocks in the cache"): every cached block, and nothing else, is released */
+static void do_cleanup(void) {
+  const char *nm = "CLEANUP";
+  long nf0 = aw_nfreed;
+  m4ri_mmc_cleanup();
+#if __M4RI_ENABLE_MMC
+  for (int i = 0; i < __M4RI_MMC_NBLOCKS; i++) { if (MS[i].size) { int saw = 0; for (long x = nf0; x < aw_nfreed; x++) if (aw_freed[x & 63] == MS[i].data) saw = 1; if (!saw) fail("model-conformance", "%s: cached block %p (slot %d) was not released", nm, MS[i].data, i); } MS[i].size = 0; MS[i].data = NULL; }
+#endif
+  for (long x = nf0; x < aw_nfreed; x++) if (is_live_data(aw_freed[x & 63])) fail("live-storage-freed", "%s: free() was called on the data block of a live matrix", nm);
+  check_model(nm); check_all_live(nm);
+}
+
 static uint64_t state_key(void) {
   uint64_t h = 0x14;
 #define MIXK(v) do { h ^= (uint64_t)(v) + 0x9e3779b97f4a7c15ULL + (h << 6) + (h >> 2); h *= 0xff51afd7ed558ccdULL; h ^= h >> 32; } while (0)
@@ -254,6 +275,7 @@ static void final_check(int order) {
 }
 
 typedef struct { int op, arg; } opt;
+static int g_more_ops = 1;
 static int enabled(opt *out) {
   int n = 0, live = 0; for (int i = 0; i < nH; i++) live += H[i].alive;
   if (live < MAXLIVE && nH < MAXH) { for (int c = 0; c < ncls; c++) out[n++] = (opt){OP_INIT, c}; for (int i = 0; i < nH; i++) if (H[i].alive && H[i].kind == 0 && H[i].bytes) out[n++] = (opt){OP_WIN, i}; }
@@ -263,15 +285,16 @@ static int enabled(opt *out) {
   for (int i = 0; i < nstart; i++) if (start_alive[i]) { int e, b = header_block_index(START[i], &e); if (b < 0) any_m = 1; else if (b < 70) seen[b] = 1; }
   for (int b = 0; b < 70; b++) if (seen[b]) out[n++] = (opt){OP_FREEBLOCK, b};
   if (any_m) out[n++] = (opt){OP_FREEBLOCK, 99};
+  if (g_more_ops) { for (int b = 0; b < 70; b++) if (seen[b]) out[n++] = (opt){OP_FREESTART, b}; out[n++] = (opt){OP_CLEANUP, 0}; }
   return n;
 }
 static void opname(opt o, char *buf, size_t n) {
-  switch (o.op) { case OP_INIT: snprintf(buf, n, "I%d", o.arg); break; case OP_WIN: snprintf(buf, n, "W%d", o.arg); break; case OP_FREE: snprintf(buf, n, "F%d", o.arg); break; default: snprintf(buf, n, "B%d", o.arg); }
+  switch (o.op) { case OP_INIT: snprintf(buf, n, "I%d", o.arg); break; case OP_WIN: snprintf(buf, n, "W%d", o.arg); break; case OP_FREE: snprintf(buf, n, "F%d", o.arg); break; case OP_FREESTART: snprintf(buf, n, "S%d", o.arg); break; case OP_CLEANUP: snprintf(buf, n, "C%d", o.arg); break; default: snprintf(buf, n, "B%d", o.arg); }
 }
 static void apply(opt o) {
   char nm[16]; opname(o, nm, sizeof nm);
   PLEN += snprintf(PATH + PLEN, sizeof PATH - (size_t)PLEN, "%s%s", PLEN && PATH[PLEN - 1] != '=' ? "," : "", nm);
-  switch (o.op) { case OP_INIT: do_init(o.arg); break; case OP_WIN: do_win(o.arg); break; case OP_FREE: do_free(o.arg); break; default: do_freeblock(o.arg); }
+  switch (o.op) { case OP_INIT: do_init(o.arg); break; case OP_WIN: do_win(o.arg); break; case OP_FREE: do_free(o.arg); break; case OP_FREESTART: do_freestart(o.arg); break; case OP_CLEANUP: do_cleanup(); break; default: do_freeblock(o.arg); }
   S->transitions++;
 }
 
@@ -280,7 +303,7 @@ static void explore(int depth, uint64_t phash) {
   if (depth > S->maxdepth) S->maxdepth = depth;
   if (depth >= g_depth || S->deadline_hit) return;
   if (g_deadline_at > 0 && now() > g_deadline_at) { S->deadline_hit = 1; return; }
-  opt ops[64]; int n = enabled(ops);
+  opt ops[160]; int n = enabled(ops);
   for (int i = 0; i < n; i++) {
     uint64_t ph = phash * 1000003ULL + (uint64_t)(ops[i].op * 131 + ops[i].arg + 7);
     if (depth == 1 && (ph % (uint64_t)g_nw) != (uint64_t)g_wid) continue; /* work split on the first two transitions */
@@ -384,7 +407,7 @@ int main(int argc, char **argv) {
   double t0 = now();
   g_depth = atoi(arg(argc, argv, "depth", "6")); g_nw = atoi(arg(argc, argv, "workers", "16")); MAXLIVE = atoi(arg(argc, argv, "maxlive", "4"));
   int deadline = atoi(arg(argc, argv, "deadline", "0")); const char *outp = arg(argc, argv, "out", NULL); const char *starts = arg(argc, argv, "starts", "0"); const char *replay = arg(argc, argv, "replay", NULL);
-  g_both_teardowns = atoi(arg(argc, argv, "both-teardowns", "0"));
+  g_both_teardowns = atoi(arg(argc, argv, "both-teardowns", "0")); g_more_ops = atoi(arg(argc, argv, "more-ops", "1"));
   int setbits = atoi(arg(argc, argv, "setbits", "22")); const char *tier = arg(argc, argv, "tier", "quick"); int do_scripted = atoi(arg(argc, argv, "scripted", "1"));
   if (deadline > 0) g_deadline_at = t0 + deadline;
   uint64_t cap = 1ULL << setbits; size_t sz = sizeof(shared_t) + cap * 9;
@@ -404,7 +427,7 @@ int main(int argc, char **argv) {
     /* --replay=<start>=<op,op,...> : sequential re-execution without the explorer */
     int nlive = atoi(replay); setup_start(nlive); PLEN = snprintf(PATH, sizeof PATH, "start=%d=", nlive);
     const char *q = strchr(replay, '='); q = q ? q + 1 : "";
-    while (*q) { opt o; char c = *q++; o.arg = (int)strtol(q, (char **)&q, 10); o.op = c == 'I' ? OP_INIT : c == 'W' ? OP_WIN : c == 'F' ? OP_FREE : OP_FREEBLOCK; apply(o); if (*q == ',') q++; }
+    while (*q) { opt o; char c = *q++; o.arg = (int)strtol(q, (char **)&q, 10); o.op = c == 'I' ? OP_INIT : c == 'W' ? OP_WIN : c == 'F' ? OP_FREE : c == 'S' ? OP_FREESTART : c == 'C' ? OP_CLEANUP : OP_FREEBLOCK; apply(o); if (*q == ',') q++; }
     final_check(0); final_check(1);
     for (uint64_t i = 0; i < S->nfail && i < MAXF; i++) printf("FAIL %s | %s : %s\n", S->fails[i].clause, S->fails[i].path, S->fails[i].msg);
     printf("replayed %s: %llu failure(s)\n", PATH, (unsigned long long)S->nfail);
